@@ -88,7 +88,13 @@ func vMakePKI(t *testing.T, dir string) *vPKI {
 	ca, caKey, caDER := vMakeCert(t, "verif-ca", true, nil, nil)
 	_, srvKey, srvDER := vMakeCert(t, "localhost", false, ca, caKey)
 	_, cliKey, cliDER := vMakeCert(t, "client", false, ca, caKey)
-	oca, ocaKey, _ := vMakeCert(t, "other-ca", true, nil, nil)
+	oca, ocaKey, ocaDER := vMakeCert(t, "other-ca", true, nil, nil)
+	// the other CA is one the *host* trusts (its certificate is the system trust store of this
+	// process): a client certificate issued by it is still not one issued by tls_ca_file
+	_ = os.WriteFile(filepath.Join(dir, "system-roots.pem"), vPEM("CERTIFICATE", ocaDER), 0o600)
+	_ = os.MkdirAll(filepath.Join(dir, "no-certs"), 0o700)
+	_ = os.Setenv("SSL_CERT_FILE", filepath.Join(dir, "system-roots.pem"))
+	_ = os.Setenv("SSL_CERT_DIR", filepath.Join(dir, "no-certs"))
 	_, uKey, uDER := vMakeCert(t, "intruder", false, oca, ocaKey)
 	p := &vPKI{caPEM: filepath.Join(dir, "ca.pem"), srvCert: filepath.Join(dir, "srv.pem"), srvKey: filepath.Join(dir, "srv.key")}
 	_ = os.WriteFile(p.caPEM, vPEM("CERTIFICATE", caDER), 0o600)
